@@ -146,6 +146,14 @@ class Hier:
                 s['cases'] = [names[0], '*.case']  # listed twice
             else:
                 s['cases'] = ["'%s'" % names[-1]] + names[:-1]
+        if style in (1, 3) and rng.chance(0.3):
+            # a QUOTED name containing glob characters is a literal file name, not a pattern: the file with exactly that
+            # name is listed; a decoy that the pattern would match exists beside it and is NOT listed
+            lit, decoy = rng.choice([('q[1]_%d.case', 'q1_%d.case'), ('w?_%d.case', 'wX_%d.case'), ('s*_%d.case', 'sab_%d.case')])
+            k = len(self.suites)
+            self._new_case(d, lit % k)
+            self._new_case(d, decoy % k)
+            s['cases'].insert(rng.below(len(s['cases']) + 1), "'%s'" % (lit % k))
         # sub suites
         if depth < 2:
             k = rng.randint(0, 3 if depth == 0 else 2)
@@ -172,7 +180,7 @@ class Hier:
         rng = self.rng
         paths = list(self.suites)
         kind = rng.choice(['double', 'cycle', 'missing-suite', 'missing-case', 'syntax', 'self', 'case-is-dir', 'double-glob',
-                           'double-glob'])
+                           'double-glob', 'missing-quoted-glob-name'])
         target = rng.choice(paths)
         if kind == 'double-glob':
             groups = [g for g in self.globbed if len(g) >= 2]
@@ -200,6 +208,11 @@ class Hier:
             s['suites'].insert(pos, 'no-such.suite')
         elif kind == 'missing-case':
             s['cases'].insert(rng.below(len(s['cases']) + 1), 'no-such.case')
+        elif kind == 'missing-quoted-glob-name':
+            # quoted, so a literal name: it does not exist although a file matching it as a pattern does
+            k = len(self.suites)
+            self._new_case(target.parent, 'gone_X_%d.case' % k)
+            s['cases'].insert(rng.below(len(s['cases']) + 1), "'gone_?_%d.case'" % k)
         elif kind == 'case-is-dir':
             s['cases'].insert(rng.below(len(s['cases']) + 1), '.')
         elif kind == 'syntax':
@@ -222,7 +235,7 @@ class Hier:
         self.results = {}
         for p, kind in self.cases.items():
             p.parent.mkdir(parents=True, exist_ok=True)
-            text, result = case_text(kind, '$ echo %s >> %s' % (p, self.log))
+            text, result = case_text(kind, "$ echo '%s' >> %s" % (p, self.log))
             p.write_text(text)
             self.results[p] = result
 
